@@ -28,6 +28,7 @@ type config struct {
 	Watch   []string          `json:"watch"`   // "Type.field"
 	WatchSlices []string      `json:"watch_slice_types"` // element-level tracking for slices of these types (types.TypeString)
 	NoTime  bool              `json:"no_time"` // keep the real package time
+	KeepMapOrder bool         `json:"keep_map_order"` // do not rewrite range-over-map
 	Sources map[string]string `json:"sources"` // repo-relative file -> replacement content path
 	Skip    []string          `json:"skip_files"`
 }
@@ -47,6 +48,7 @@ var (
 	watchSlices = map[string]bool{}
 	generated = map[ast.Node]bool{}
 	uniq  int
+	keepMapOrder bool
 )
 
 func fail(format string, a ...interface{}) {
@@ -392,6 +394,48 @@ func identOf(e ast.Expr) *ast.Ident {
 	return nil
 }
 
+func isMap(e ast.Expr) bool {
+	if tv, ok := info.Types[e]; ok && tv.Type != nil {
+		_, ok := tv.Type.Underlying().(*types.Map)
+		return ok
+	}
+	return false
+}
+
+// rewriteMapRange makes the iteration order of a map a decision of the explorer
+// (sorted keys by default) instead of the runtime's random order.
+func rewriteMapRange(r *ast.RangeStmt) ast.Stmt {
+	site("range-map", r)
+	kv, vv, okv := fresh("k"), fresh("v"), fresh("ok")
+	blank := func(e ast.Expr) bool {
+		if e == nil {
+			return true
+		}
+		i, ok := e.(*ast.Ident)
+		return ok && i.Name == "_"
+	}
+	var body []ast.Stmt
+	if blank(r.Value) {
+		body = append(body, &ast.AssignStmt{Lhs: []ast.Expr{id("_"), id(okv)}, Tok: token.DEFINE, Rhs: []ast.Expr{&ast.IndexExpr{X: r.X, Index: id(kv)}}})
+	} else {
+		body = append(body, &ast.AssignStmt{Lhs: []ast.Expr{id(vv), id(okv)}, Tok: token.DEFINE, Rhs: []ast.Expr{&ast.IndexExpr{X: r.X, Index: id(kv)}}})
+	}
+	// entries deleted during the iteration are not visited, as in Go
+	body = append(body, &ast.IfStmt{Cond: &ast.UnaryExpr{Op: token.NOT, X: id(okv)}, Body: &ast.BlockStmt{List: []ast.Stmt{&ast.BranchStmt{Tok: token.CONTINUE}}}})
+	var lhs, rhs []ast.Expr
+	if !blank(r.Key) {
+		lhs, rhs = append(lhs, r.Key), append(rhs, id(kv))
+	}
+	if !blank(r.Value) {
+		lhs, rhs = append(lhs, r.Value), append(rhs, id(vv))
+	}
+	if len(lhs) > 0 {
+		body = append(body, &ast.AssignStmt{Lhs: lhs, Tok: r.Tok, Rhs: rhs})
+	}
+	body = append(body, r.Body.List...)
+	return &ast.RangeStmt{Key: id("_"), Value: id(kv), Tok: token.DEFINE, X: call(sel("vsched", "MapKeys"), r.X), Body: &ast.BlockStmt{List: body}}
+}
+
 func rewriteRange(r *ast.RangeStmt) ast.Stmt {
 	site("range-chan", r)
 	okv := fresh("ok")
@@ -486,6 +530,8 @@ func processFile(f *ast.File) {
 		case *ast.RangeStmt:
 			if isChan(n.X) {
 				c.Replace(rewriteRange(n))
+			} else if isMap(n.X) && !keepMapOrder {
+				c.Replace(rewriteMapRange(n))
 			}
 		case *ast.AssignStmt:
 			if _, inSel := c.Parent().(*ast.CommClause); inSel && c.Name() == "Comm" {
@@ -619,6 +665,7 @@ func main() {
 	for _, w := range cfg.Watch {
 		watch[w] = true
 	}
+	keepMapOrder = cfg.KeepMapOrder
 	for _, w := range cfg.WatchSlices {
 		watchSlices[w] = true
 	}
